@@ -489,6 +489,13 @@ func (g *gRunner) run(p *gPath, root *ssa.Function) []*gPath {
 			if gk, ok := p.guarded[in.X]; ok {
 				parts := strings.SplitN(gk, "|", 2)
 				g.check(p, f, parts[0], parts[1], "read", in.Pos(), root)
+				// maps / slices stored inside a guarded map are guarded by the same lock
+				if mt, ok := in.X.Type().Underlying().(*types.Map); ok {
+					switch mt.Elem().Underlying().(type) {
+					case *types.Map, *types.Slice:
+						p.guarded[in] = gk
+					}
+				}
 			}
 			g.tupleSyms(p, in)
 		case *ssa.Range:
@@ -501,6 +508,7 @@ func (g *gRunner) run(p *gPath, root *ssa.Function) []*gPath {
 			if gk, ok := p.guarded[in.Iter]; ok {
 				parts := strings.SplitN(gk, "|", 2)
 				g.check(p, f, parts[0], parts[1], "read", in.Pos(), root)
+				p.guarded[in] = gk
 			}
 			g.tupleSyms(p, in)
 		case *ssa.TypeAssert, *ssa.Select:
@@ -519,6 +527,12 @@ func (g *gRunner) run(p *gPath, root *ssa.Function) []*gPath {
 		case *ssa.Extract:
 			if ts, ok := p.tuples[in.Tuple]; ok && in.Index < len(ts) && ts[in.Index] != nil {
 				p.env[in] = ts[in.Index]
+			}
+			if gk, ok := p.guarded[in.Tuple]; ok {
+				switch in.Type().Underlying().(type) {
+				case *types.Map, *types.Slice:
+					p.guarded[in] = gk
+				}
 			}
 		case *ssa.Defer:
 			f.defers = append(f.defers, in.Call)
